@@ -275,7 +275,7 @@ def _corner_cases():
 
 def gen_cases(rng, tier):
     cases = _corner_cases()
-    n = 650 if tier == "quick" else 7000
+    n = 1200 if tier == "quick" else 20000
     for _ in range(n):
         cases.append(_rand_case(rng))
     return cases
